@@ -33,6 +33,7 @@ MODEL_SWITCHES = [
     ("MC_Conc6", "MC_Conc6_bug2.cfg", "LinOK", "interior split without the splitting mark"),
     ("MC_Conc7", "MC_Conc7_bug1.cfg", "LinOK", "get_child_of accepts a deleted child: descent through a collapsed interior (seed C08d)"),
     ("MC_Conc7", "MC_Conc7_bug2.cfg", "SwapOK", "lock_parent of a collapsing interior without the re-check of its parent"),
+    ("MC_Version", "MC_Version_bug1.cfg", "CountersTrack", "seed C17d: unlock advances the split counter OR ELSE the insert counter (UNLOCK_ELSE_IF)"),
     ("YkEpoch", "MC_Epoch_bug.cfg", "SafeStrong", "F5: two-step enter"),
     ("YkEpoch", "MC_Epoch_bug2.cfg", "SafeStrong", "seed C07d: leave releases the slot before it clears the begin epoch (LEAVE_SWAPPED)"),
     ("YkLife", "MC_Life_bug.cfg", "ThreadsAliveWhileRunning", "F4: stop flags not cleared"),
